@@ -107,12 +107,15 @@ pub fn run<W: Write>(out: &mut W, seed: u64, n: usize, opts: &HashMap<String, St
 pub fn replay<W: Write>(out: &mut W, opts: &HashMap<String, String>) {
     std::fs::create_dir_all("/verif/build/tmp").unwrap();
     let text = std::fs::read_to_string(opts.get("file").expect("file=<path>")).unwrap();
+    // `cli=<pct>`: that share of the cases (chosen by the case number) also goes through the command line driver
+    let cli_pct: usize = opts.get("cli").and_then(|s| s.parse().ok()).unwrap_or(0);
     for line in text.lines() {
         let line = line.trim();
         if !line.starts_with("C|") { continue; }
         let f: Vec<&str> = line.split('|').collect();
         let a = if f[2] == "~" { None } else { Some(unhex(f[2])) };
         let b = if f[3] == "~" { None } else { Some(unhex(f[3])) };
-        emit(out, f[1].parse().unwrap_or(0), &a, &b, f[4] == "R", f[5].parse().unwrap(), "f", &unhex(f[6]), false);
+        let id: usize = f[1].parse().unwrap_or(0);
+        emit(out, id, &a, &b, f[4] == "R", f[5].parse().unwrap(), "f", &unhex(f[6]), (id * 7919) % 100 < cli_pct);
     }
 }
